@@ -25,10 +25,14 @@ macro_rules! keep {
 
 /// Objects built for one program: the crate's containers borrow their children (`&'a dyn Aml`), so every object is
 /// boxed, leaked for the duration of the program and released afterwards (parents before children).
-pub struct Arena(Vec<*mut dyn Aml>);
+pub struct Arena(Vec<*mut dyn Aml>, Option<std::collections::HashMap<String, &'static dyn Aml>>);
 impl Arena {
     pub fn new() -> Self {
-        Arena(Vec::new())
+        Arena(Vec::new(), None)
+    }
+    /// equal sub-trees become ONE object that is handed to every place where it occurs
+    pub fn sharing() -> Self {
+        Arena(Vec::new(), Some(std::collections::HashMap::new()))
     }
     fn keep<T: Aml + 'static>(&mut self, t: T) -> &'static dyn Aml {
         let b: Box<dyn Aml> = Box::new(t);
@@ -53,6 +57,15 @@ impl Aml for RawBytes {
 /// `Node` -- a user-defined `Aml` implementor that only knows how to serialise itself.
 fn child(v: &Value, native: bool, arena: &mut Arena) -> &'static dyn Aml {
     if native {
+        if arena.1.is_some() {
+            let key = v.to_string();
+            if let Some(o) = arena.1.as_ref().unwrap().get(&key) {
+                return *o;
+            }
+            let o = build(v, true, arena);
+            arena.1.as_mut().unwrap().insert(key, o);
+            return o;
+        }
         build(v, true, arena)
     } else {
         arena.keep(Node(v.clone()))
@@ -339,7 +352,11 @@ fn max_fill(v: &Value) -> u64 {
 
 /// native: every node is the crate's own object; otherwise every child is a `Node` wrapper
 pub fn encode_mode(tree: &Value, native: bool) -> Result<Vec<u8>, ()> {
-    let mut arena = Arena::new();
+    encode_shared(tree, native, false)
+}
+
+pub fn encode_shared(tree: &Value, native: bool, share: bool) -> Result<Vec<u8>, ()> {
+    let mut arena = if share { Arena::sharing() } else { Arena::new() };
     let r = guarded(|| {
         let o = build(tree, native, &mut arena);
         // objects of hundreds of MiB always into a vector (a byte-at-a-time sink would take minutes)
@@ -359,7 +376,7 @@ pub fn encode_mode(tree: &Value, native: bool) -> Result<Vec<u8>, ()> {
 /// Large outputs may be summarised (`head`/`tail`/`len`) when the program asks for it.
 pub fn exec(run: u64, prog: &Value, out: &mut Out) {
     let tree = get(prog, "tree");
-    let r = encode_mode(tree, prog.get("native").map(bool_of).unwrap_or(true));
+    let r = encode_shared(tree, prog.get("native").map(bool_of).unwrap_or(true), prog.get("share").map(bool_of).unwrap_or(false));
     let (bytes, panicked) = match r {
         Ok(b) => (b, false),
         Err(()) => (vec![], true),
